@@ -5,9 +5,16 @@ small alphabets, random/adversarial, and pools written out by x86::Assembler / x
 a64::Compiler - against an independent model (byte map + interval ownership). Allocation-failure histories (fexh /
 frandom): the pool's Arena refuses the j-th request made inside a chosen add() (hook H1), for every add of every enumerated
 sequence and every j reachable in it; the refused constant is requested again, earlier constants are re-added, halves /
-quarters / new constants follow, the pool is written out by fill() and by embed_const_pool() of x86/a64 Assembler/Builder.
+quarters / new constants follow, the pool is written out by fill() and by embed_const_pool() of x86/a64 Assembler/Builder
+(now and then right after the refusal, with a logger, and with an arena request of the embed itself refused: the pool is
+then embedded again under a new label). Compiler cases: constants go through _new_const() and the typed wrappers
+(new_byte_const .. new_double_const) of x86::Compiler (64- and 32-bit target) and a64::Compiler; in half of them arena
+requests fail anywhere inside _new_const() (pool node, label registration, add()); scopes that do not exist are refused.
+Embeds of pools larger than the first CodeBuffer and into a second section. Every dimension has a floor: a run in which
+one of them observed nothing is inconclusive (exit 2).
 This module shards the work, merges what the monitors saw and turns it into a verdict."""
 import json
+import platform
 import re
 
 from vlib import build, common
@@ -106,6 +113,7 @@ def run(tier, args):
     refused_by_index = [0] * 41
     refused_by_pos = {}
     fault_embed_paths = {}
+    extra = {}
     fexh_nontrivial = 0
     fexh_sequences = 0
     fexh_done = {}
@@ -133,8 +141,18 @@ def run(tier, args):
             # killed without a sanitizer report or a summary (e.g. by the kernel's OOM killer): inconclusive, not an alarm
             dead.append("driver %s rc=%s produced no summary: %s" % (argv, rc, err[-300:]))
             continue
+        fresh_alarm = False
         for v in res["violations"]:
-            chk.violation(v["key"], v["what"], {"argv": argv})
+            # violation() answers False for a key that known_findings.json lists as known
+            if chk.violation(v["key"], v["what"], {"argv": argv}) is not False:
+                fresh_alarm = True
+        for k, v in res.get("extra", {}).items():
+            if k.startswith("max:"):
+                extra[k[4:]] = max(extra.get(k[4:], 0), v)
+            elif k.startswith("host_"):
+                extra[k] = max(extra.get(k, 0), v)
+            else:
+                extra[k] = extra.get(k, 0) + v
         for k in SUM_KEYS:
             tot[k] += res[k]
         tot["max_pool_size"] = max(tot["max_pool_size"], res["max_pool_size"])
@@ -158,7 +176,7 @@ def run(tier, args):
                 exh_nontrivial += res["nontrivial"]
                 exh_sequences += res["sequences"]
                 a, ln = argv[argv.index("--alpha") + 1], int(argv[argv.index("--len") + 1])
-                if not res["violations"]:
+                if not fresh_alarm:
                     exh_done.setdefault((a, ln), 0)
                     exh_done[(a, ln)] += 1
             else:
@@ -167,7 +185,7 @@ def run(tier, args):
             # (sequence, failing add, failing request, sticky, follow-up variant) tuples are distinct by construction
             fexh_nontrivial += res["nontrivial"]
             fexh_sequences += res["sequences"]
-            if not res["violations"]:
+            if not fresh_alarm:
                 k = (argv[argv.index("--alpha") + 1], int(argv[argv.index("--len") + 1]))
                 fexh_done[k] = fexh_done.get(k, 0) + 1
         else:
@@ -204,6 +222,62 @@ def run(tier, args):
         fexh_len = min(ln for (_, ln) in fexpected)
     if not args.replay and fexpected and tot["refused"] == 0:
         raise common.HarnessError("allocation-failure histories ran but no add() was refused: hook H1 not effective")
+    # Floors: every dimension the verdict leans on must have been observed, otherwise the run is inconclusive. (Not applied
+    # to a replay or to a run that already holds an alarm: a failed history ends early.)
+    modes = set(j[1] for j in jobs)
+    if not args.replay and not chk.violations:
+        missing = []
+
+        def need(name, value):
+            if not value:
+                missing.append(name)
+
+        if "exh" in modes or "random" in modes:
+            for k in ("sharing", "gap_reuse", "dedup", "append", "invalid_rejected", "fills", "readd_checks", "pool_reuse"):
+                need(k, tot[k])
+            need("is_empty_checked_after_successful_add", extra.get("is_empty_checked_after_successful_add"))
+            for i, v in enumerate(by_size):
+                need("valid adds of size %d" % (1 << i), v)
+        if "emit" in modes:
+            for k in ("x86::Compiler", "a64::Compiler", "x86::Builder", "x86::Assembler", "with-logger", "x86::Compiler:32-bit-target",
+                      "x86::Compiler:with-refused-requests", "a64::Compiler:with-refused-requests", "load:32-bit-target"):
+                need("emitter path " + k, emit_paths.get(k))
+            need("emit_pools", tot["emit_pools"])
+            if platform.machine() in ("x86_64", "AMD64"):
+                need("host_can_execute", extra.get("host_can_execute"))
+                need("emit_exec", tot["emit_exec"])
+                need("emit_exec_bytes", tot["emit_exec_bytes"])
+                need("jit_functions_executed_in_cases_with_refused_requests", extra.get("jit_functions_executed_in_cases_with_refused_requests"))
+                for k in ("load:gp", "load:gp-chunks", "load:xmm"):
+                    need("emitter path " + k, emit_paths.get(k))
+                if extra.get("host_has_avx"):
+                    need("emitter path load:ymm", emit_paths.get("load:ymm"))
+                if extra.get("host_has_avx512"):
+                    need("emitter path load:zmm", emit_paths.get("load:zmm"))
+            for arch, sized in (("x86", ("byte", "word", "dword", "qword")), ("a64", ("byte", "half", "word", "dword"))):
+                for w in ["new_%s_const" % x for x in sized + ("int16", "uint16", "int32", "uint32", "int64", "uint64", "float", "double")] + ["new_const"]:
+                    need("typed wrapper %s:%s" % (arch, w), extra.get("typed_wrapper:%s:%s" % (arch, w)))
+                need("newconst_refused:%s:inside-add" % arch, extra.get("newconst_refused:%s:inside-add" % arch))
+                need("newconst_refused:%s:pool-creation" % arch,
+                     sum(v for k, v in extra.items() if k.startswith("newconst_refused:%s:pool-creation" % arch)))
+            for k in ("invalid_scope_refused:_new_const", "invalid_scope_refused:typed-new_const", "newconst_handed_out_after_refused_pool_creation",
+                      "newconst_asked_again_at_once", "newconst_asked_again_before_scope_end", "compiler_pools_with_refused_add_checked_in_section",
+                      "emitter_pools_larger_than_first_code_buffer_checked", "emitter_pools_in_a_second_section_checked"):
+                need(k, extra.get(k))
+        if "fexh" in modes or "frandom" in modes:
+            for k in ("x86::Assembler", "x86::Builder", "a64::Assembler", "a64::Builder"):
+                need("embed_const_pool in failure histories through " + k, fault_embed_paths.get(k))
+            for k in ("x86::Builder", "a64::Builder"):
+                need("embed_refused:" + k, sum(v for kk, v in extra.items() if kk.startswith("embed_refused:" + k)))
+            for k in ("embed_again_after_refused_embed", "embeds_right_after_a_refused_add", "embeds_with_logger_after_a_refusal",
+                      "embeds_with_logger_that_logged"):
+                need(k, extra.get(k))
+            for k in ("retries", "readd_after_refusal", "derived_after_refusal", "embeds_after_refusal",
+                      "reuse_after_refusal", "consts_after_refusal"):
+                need(k, tot[k])
+        if missing:
+            raise common.HarnessError("dimension(s) of the workload observed nothing: " + ", ".join(missing))
+
     chk.coverage.update({
         "evaluations": tot["sequences"],
         "distinct_nontrivial": exh_nontrivial + fexh_nontrivial + len(distinct),
@@ -263,16 +337,47 @@ def run(tier, args):
         "embed_const_pool_checked_after_a_refusal": tot["embeds_after_refusal"],
         "embed_const_pool_emitters_in_failure_histories": fault_embed_paths,
         "histories_on_a_pool_reset_after_it_refused_a_request": tot["reuse_after_refusal"],
+        "is_empty_checked_after_successful_add": extra.get("is_empty_checked_after_successful_add", 0),
+        "compiler_new_const_calls_with_an_arena_request_armed_to_fail": extra.get("newconst_faults_armed", 0),
+        "compiler_new_const_calls_in_which_the_armed_request_was_reached": extra.get("newconst_faults_reached", 0),
+        "compiler_new_const_refusals_by_emitter_and_place": {k[len("newconst_refused:"):]: v for k, v in sorted(extra.items()) if k.startswith("newconst_refused:")},
+        "compiler_new_const_failed_requests_not_reported": {k[len("newconst_fault_not_reported:"):]: v for k, v in sorted(extra.items()) if k.startswith("newconst_fault_not_reported:")},
+        "compiler_constants_handed_out_in_a_scope_whose_pool_creation_was_refused_before": extra.get("newconst_handed_out_after_refused_pool_creation", 0),
+        "compiler_refused_constants_asked_again_at_once": extra.get("newconst_asked_again_at_once", 0),
+        "compiler_refused_constants_asked_again_before_scope_end": extra.get("newconst_asked_again_before_scope_end", 0),
+        "compiler_pools_with_refused_add_checked_in_section": extra.get("compiler_pools_with_refused_add_checked_in_section", 0),
+        "jit_functions_executed_in_cases_with_refused_requests": extra.get("jit_functions_executed_in_cases_with_refused_requests", 0),
+        "typed_wrapper_calls": extra.get("typed_wrapper_calls", 0),
+        "typed_wrapper_calls_by_name": {k[len("typed_wrapper:"):]: v for k, v in sorted(extra.items()) if k.startswith("typed_wrapper:")},
+        "invalid_scope_refused": {k[len("invalid_scope_refused:"):]: v for k, v in sorted(extra.items()) if k.startswith("invalid_scope_refused:")},
+        "emitter_pools_larger_than_first_code_buffer_checked": extra.get("emitter_pools_larger_than_first_code_buffer_checked", 0),
+        "emitter_pools_in_a_second_section_checked": extra.get("emitter_pools_in_a_second_section_checked", 0),
+        "largest_embedded_pool_bytes": extra.get("largest_embedded_pool_bytes", 0),
+        "embed_const_pool_calls_with_an_arena_request_armed_to_fail": extra.get("embed_faults_armed", 0),
+        "most_arena_requests_seen_in_one_embed_const_pool": extra.get("most_arena_requests_seen_in_one_embed_const_pool", 0),
+        "embed_const_pool_refusals_by_emitter_and_request": {k[len("embed_refused:"):]: v for k, v in sorted(extra.items()) if k.startswith("embed_refused:")},
+        "embed_const_pool_failed_requests_not_reported": {k[len("embed_fault_not_reported:"):]: v for k, v in sorted(extra.items()) if k.startswith("embed_fault_not_reported:")},
+        "pools_embedded_again_under_a_new_label_after_a_refused_embed": extra.get("embed_again_after_refused_embed", 0),
+        "embeds_right_after_a_refused_add": extra.get("embeds_right_after_a_refused_add", 0),
+        "embeds_with_logger_in_failure_histories": extra.get("embeds_with_logger_that_logged", 0) + extra.get("embeds_with_logger_that_logged_nothing", 0),
+        "embeds_with_logger_after_a_refusal": extra.get("embeds_with_logger_after_a_refusal", 0),
+        "embeds_without_logger_because_min_item_size_0": extra.get("embeds_without_logger_because_min_item_size_0", 0),
+        "logged_embeds_of_pools_with_size_but_min_item_size_0_run_in_a_child_process": extra.get("logged_embeds_of_pools_with_size_but_min_item_size_0_(child_process)", 0),
+        "jit_runtime_add_failed": extra.get("jit_runtime_add_failed", 0),
+        "host": {k: v for k, v in sorted(extra.items()) if k.startswith("host_")},
         "jobs": len(jobs),
     })
     chk.assumptions += [
         "ASan/UBSan instrumented static build of the working tree; constants are handed to add() flush against a poisoned region or from odd addresses",
-        "allocation faults are injected only in the failure histories (fexh/frandom), only into arena requests made inside ConstPool::add() (hook H1, -DASMJIT_VERIF build); everywhere else an add() of a valid size that fails is reported",
+        "allocation faults (hook H1, -DASMJIT_VERIF build) are injected only (a) in the failure histories (fexh/frandom) into arena requests made inside ConstPool::add() and inside embed_const_pool() of the four emitters, (b) in one half of the Compiler cases into arena requests made anywhere inside BaseCompiler::_new_const() (pool node, its label, add()); everywhere else an add() of a valid size that fails is reported. CodeBuffer growth (realloc) cannot be made to fail through H1: Assembler::embed_const_pool() is never refused",
+        "a refused _new_const()/embed_const_pool() owes nothing by itself (no demand that the label stays unbound or that the scope has no pool); what is handed out / written out afterwards is held to the statement: an operand returned with kOk must be [L + offset] with L the label registered to the scope's pool node, the pool embedded again under a new label must be complete",
+        "_new_const() with a ConstPoolScope above kMaxValue must return an error, hand out no operand with a base and leave both pools of the Compiler unchanged; the typed wrappers (new_byte_const .. new_double_const, new_const) signal failure only through a reset operand ([0], no base)",
+        "min_item_size() is not part of the statement and is not checked (a shared half handed out by lookup does not lower it); is_empty() must be false once an offset was handed out. A pool with size() > 0 and min_item_size() == 0 is written out with a logger only in a child process (at most 4 per shard)",
         "a refused add() may have registered nothing, the constant, or the constant and some of its shared sub-patterns; its bytes may show up in fill() in storage owned by no handed-out constant; not required: a particular error code, min_item_size(), that the refused call leaves size() unchanged",
         "after a refusal a constant may be handed out over narrower constants with equal bytes iff a refused, not yet handed out constant that contains it as an aligned slice (or is it) explains the placement and the narrower ones were handed out after that refusal",
         "embed_const_pool() must bind the pool label at a section offset that is a multiple of the largest constant handed out (not only of alignment())",
         "a new constant may lie inside an earlier wider constant only if the bytes there are equal (sharing); a wider constant laid over earlier narrower ones is reported as overlap even if bytes agree (asmjit documents that it never does that)",
         "alignment() is required to be a power of two >= the largest size added; size() >= every offset+size; neither is required to be minimal",
-        "emitter paths: section bytes at label+offset are compared for x86 Assembler/Builder/Compiler and a64 Compiler; loads through the returned operand are executed for x86-64 only",
+        "emitter paths: section bytes at label+offset are compared for x86 Assembler/Builder/Compiler (64-bit and 32-bit target) and a64 Compiler, in .text or in a second section; loads through the returned operand are executed for x86-64 only",
     ]
     return chk.finish()
